@@ -1,5 +1,6 @@
 SPECIFICATION Spec
 CONSTANTS
   MaxDim = 4
+  AllPerms = FALSE
 INVARIANTS TermCountsMatchManual EquationsWellFormed VerdictTotal AbbreviatedInPortOrder EntryPointsAgree FullAndAbbreviatedAgree RenumberingIsConsistentPermutation RelistingChangesNothing
 CHECK_DEADLOCK FALSE
